@@ -3,7 +3,10 @@
 package registry
 
 import (
+	"fmt"
+	"github.com/keep-network/keep-core/internal/testutils"
 	"math/big"
+	"sort"
 	"testing"
 
 	bn256 "github.com/ethereum/go-ethereum/crypto/bn256/cloudflare"
@@ -66,6 +69,57 @@ func TestVerif_C19_BeaconRegistryRoundTrip(t *testing.T) {
 
 func TestVerif_C19_BeaconRegistryHostile(t *testing.T) {
 	c19wire.RunHostile(t, "TestVerif_C19_BeaconRegistryHostile", c19Codecs())
+}
+
+// c19Loaders: the beacon group registry loader (start-up), the production
+// caller of Membership.Unmarshal.
+func c19Loaders() []c19wire.Loader {
+	codecs := c19Codecs()
+	return []c19wire.Loader{{
+		Name:   "registry.Groups.LoadExistingGroups",
+		Codecs: codecs, Record: 0,
+		Load: func(h *c19wire.MemHandle) ([]string, error) {
+			g := NewGroupRegistry(&testutils.MockLogger{}, nil, h)
+			g.LoadExistingGroups()
+			var out []string
+			for _, memberships := range g.myGroups {
+				for _, m := range memberships {
+					out = append(out, c19StableRender(m))
+				}
+			}
+			return out, nil
+		},
+		Expect: func(f c19wire.File) (string, bool) {
+			v, ok := c19wire.Decode(&codecs[0], f.Content)
+			if !ok {
+				return "", false
+			}
+			return c19StableRender(v.(*Membership)), true
+		},
+	}}
+}
+
+// c19StableRender identifies a loaded membership. The values of the public key
+// share map are left out: share keys above 255 in a stored record are
+// truncated by the decoder (notes O3) and when two of them collide the
+// surviving share depends on map iteration order, so two decodings of the
+// same damaged file may differ there.
+func c19StableRender(m *Membership) string {
+	s := m.Signer
+	var keys []int
+	for k := range s.GroupPublicKeyShares() {
+		keys = append(keys, int(k))
+	}
+	sort.Ints(keys)
+	// the private key share is not reachable from this package: a signature
+	// share over a fixed message stands for it
+	sig := s.CalculateSignatureShare(new(bn256.G1).ScalarBaseMult(big.NewInt(7))).Marshal()
+	return fmt.Sprintf("member=%d key=%x share=%x shareOwners=%v operators=%q channel=%q",
+		s.MemberID(), s.GroupPublicKeyBytes(), sig, keys, s.GroupOperators(), m.ChannelName)
+}
+
+func TestVerif_C19_BeaconRegistryLoaders(t *testing.T) {
+	c19wire.RunLoaders(t, "TestVerif_C19_BeaconRegistryLoaders", c19Loaders())
 }
 
 func FuzzVerif_C19_BeaconRegistry(f *testing.F) { c19wire.RunFuzz(f, c19Codecs()) }
